@@ -1,4 +1,5 @@
 import LK.Generated.GuardsC02
+import LK.Model.Pipeline
 /-!
 # C02 — obligation on the translated `fallback_on_none` (the component behind `use_first_of`)
 -/
@@ -16,5 +17,89 @@ theorem fallbackOnNone_spec (primary fallback : LK.Py.V) :
 /-- …in particular a falsy primary value (0, an empty list) is a value -/
 theorem fallbackOnNone_falsy (fallback : LK.Py.V) : fallbackOnNone (some 0) fallback = some 0 := by
   rw [fallbackOnNone_spec]
+
+/-! ### the runner's decisions (`PipelineRunner.run`, `_inject_input`, `_run_component`, `DeferredRun.get`)
+
+The model's parameter (`LK.Pipe.Param`) *accepts `None`* when it has no type annotation or `None` is compatible with it, and accepts
+a value when it has no annotation or the value is compatible: `acceptsNone = !typed || noneOk`, `accepts v = !typed || valOk`. -/
+open LK.Pipe
+
+/-- `ireq` — whether a dependency is required of its source — is the model's `required && !p.acceptsNone` -/
+theorem inputRequired_eq (required typed noneOk : Bool) :
+    inputRequired required typed noneOk = (required && !(!typed || noneOk)) := by
+  cases required <;> cases typed <;> cases noneOk <;> rfl
+
+/-- a component bails out (no result, no error) exactly as the model's parameter loop does: an eager dependency came back `None`,
+    the parameter does not accept `None`, and the component itself is not required -/
+theorem bailOut_iff (ival : LK.Py.V) (typed noneOk required : Bool) :
+    bailOutBranch ival typed false noneOk required = 0 ↔ (ival.isNone ∧ (!(!typed || noneOk)) = true ∧ (!required) = true) := by
+  cases ival <;> cases typed <;> cases noneOk <;> cases required <;> simp [bailOutBranch]
+
+/-- lazy parameters are never the reason to bail out, and are not type-checked when the component starts (`DeferredRun.get` does it) -/
+theorem lazy_deferred (ival : LK.Py.V) (typed noneOk required valOk : Bool) :
+    bailOutBranch ival typed true noneOk required = 1 ∧ inputTypeBranch typed true valOk = 1 := by
+  cases ival <;> cases typed <;> cases noneOk <;> cases required <;> cases valOk <;> simp [bailOutBranch, inputTypeBranch]
+
+/-- an eager dependency is rejected exactly when the model's `paramOk` fails … -/
+theorem inputType_iff (typed valOk : Bool) : inputTypeBranch typed false valOk = 0 ↔ (!(!typed || valOk)) = true := by
+  cases typed <;> cases valOk <;> simp [inputTypeBranch]
+
+/-- … as a `PipelineError` when nothing came back and a `TypeError` otherwise -/
+theorem inputErrorKind (x : Int) : inputErrorKindBranch none = 0 ∧ inputErrorKindBranch (some x) = 1 := by
+  simp [inputErrorKindBranch]
+
+/-- a missing input is an error exactly when this request requires it and the input does not accept `None` -/
+theorem injectMissing_iff (val : LK.Py.V) (required typed noneOk : Bool) :
+    injectMissingBranch val required typed noneOk = 0 ↔ (val.isNone ∧ required = true ∧ (!(!typed || noneOk)) = true) := by
+  cases val <;> cases required <;> cases typed <;> cases noneOk <;> simp [injectMissingBranch]
+
+/-- a supplied input is rejected exactly when it is ill-typed -/
+theorem injectType_iff (val : LK.Py.V) (typed valOk : Bool) :
+    injectTypeBranch val typed valOk = 0 ↔ (val.isSome ∧ (!(!typed || valOk)) = true) := by
+  cases val <;> cases typed <;> cases valOk <;> simp [injectTypeBranch]
+
+/-- a deferred input is type-checked when it is consulted -/
+theorem deferredType_iff (dataType : LK.Py.V) (valOk : Bool) :
+    deferredTypeBranch dataType valOk = 0 ↔ (dataType.isSome ∧ valOk = false) := by
+  cases dataType <;> cases valOk <;> simp [deferredTypeBranch]
+
+/-- the status dispatch of `run`: the model's four arms in the model's order (finished → memo, in progress → cycle error,
+    failed → error, pending → run it) -/
+theorem runStatus_dispatch (st : Status) :
+    runStatusBranch (st == .finished) (st == .inProgress) (st == .failed)
+      = (match st with | .finished => 0 | .inProgress => 1 | .failed => 2 | .pending => 3) := by
+  cases st <;> rfl
+
+def encV : Val → LK.Py.V
+  | .none => none
+  | _ => some 0
+
+/-- **a request of a finished node, in the model, is the translated dispatch:** the memoised value (an input re-validated against
+    *this* request's `required` flag), `PipelineError` when the node bailed out earlier and is now required, `None` otherwise -/
+theorem runNode_finished_dispatch (g : Graph) (ι : Name → Val) (fuel : Nat) (n : Name) (required : Bool) (s : RS)
+    (h : s.status n = .finished) :
+    runNode .repaired g ι (fuel + 1) n required s =
+      (match runFinishedBranch (s.state n).isSome required with
+       | 0 =>
+         (match s.state n with
+          | some v =>
+            (match g.node n with
+             | .input an _ =>
+               if runRevalidateBranch (encV v) required true = 0 ∧ (!an) = true then (.error .pipeline, s) else (.ok (some v), s)
+             | _ => (.ok (some v), s))
+          | Option.none => (.ok Option.none, s))
+       | 1 => (.error .pipeline, s)
+       | _ => (.ok Option.none, s)) := by
+  unfold runNode
+  simp only [h]
+  cases hs : s.state n with
+  | none => cases required <;> simp [runFinishedBranch]
+  | some v =>
+    simp only [runFinishedBranch, Option.isSome_some, if_true]
+    cases hg : g.node n with
+    | input an acc =>
+      cases v <;> cases required <;> cases an <;> simp [runRevalidateBranch, encV]
+    | literal w => rfl
+    | comp ps sel fin => rfl
 
 end LK.Gen.GuardsC02
